@@ -54,7 +54,7 @@ type c14Case struct {
 }
 
 func genC14(t *rapid.T) c14Case {
-	cfg := worldCfg{MaxGasSmall: true}
+	cfg := worldCfg{MaxGasSmall: true, ModAddrs: true}
 	w := genEvmWorld(t, cfg)
 	if rapid.IntRange(0, 3).Draw(t, "smallblock") == 0 {
 		w.MaxGas = rapid.Int64Range(150000, 1500000).Draw(t, "maxgas")
@@ -485,6 +485,23 @@ func c14CheckBlock(o *Outcome, n *c14Node, idx *indexer.KVIndexer, be *backend.B
 		for j, l := range flat {
 			if l.Index != uint(j) {
 				o.dev("", "GetLogsByHeight(%d): log %d has index %d", h, j, l.Index)
+			}
+		}
+		// every positional field of the logs view: Ethereum tx index, tx hash, block number (also in blocks where Cosmos
+		// txs or dropped txs sit before the Ethereum tx)
+		if len(flat) == len(want) {
+			j := 0
+			for _, e := range admitted {
+				for range e.Logs {
+					l := flat[j]
+					if l.TxIndex != uint(e.EthIndex) || l.TxHash != e.Hash || l.BlockNumber != uint64(h) {
+						o.dev("", "GetLogsByHeight(%d): log %d says tx index %d, tx %s, block %d; the consensus view has it in Ethereum tx %d (%s) of block %d", h, j, l.TxIndex, l.TxHash.Hex(), l.BlockNumber, e.EthIndex, e.Hash.Hex(), h)
+					}
+					if e.Pos != e.EthIndex {
+						o.label("logs-view:tx-after-non-ethereum-tx")
+					}
+					j++
+				}
 			}
 		}
 	})
